@@ -208,6 +208,8 @@ def parse_transcript(text):
 def run_harness(binp, suite, mode_args, out_path, timeout):
     env = dict(os.environ)
     env.setdefault("GOMEMLIMIT", "3GiB")
+    os.makedirs(REPLAYS, exist_ok=True)
+    env.setdefault("VERIF_DUMP_DIR", REPLAYS)
     cmd = [binp] + mode_args + ["-out", out_path]
     rc, out, dt = sh(cmd, cwd=os.path.dirname(binp), env=env, timeout=timeout)
     return rc, out, dt
